@@ -67,6 +67,9 @@ impl InferShapes for Slice {
                         end => Some(end as isize),
                     };
 
+                    if *step == 0 {
+                        return Err(InferShapesError::InvalidValue);
+                    }
                     let range = SliceRange::new(*start as isize, end, *step as isize);
 
                     // When slicing a symbolic vec along axis 0, the result can
